@@ -32,10 +32,22 @@ def run(ctx):
             else:
                 vlib.report(ctx, 'lint:%s:%s' % (why, 'subscriber' if e['subscriber'] else 'ca'), 'e_dnsname_not_valid_tld on name %r at %s (cn=%s san=%s cnIsIP=%s subscriber=%s): status %s, specification %s' % (
                     e['name'], e['t'], e['cnProbe'], e['sanProbe'], e['cnIsIP'], e['subscriber'], e['status'], k), dict(event=e))
-    cov = dict(evaluations=s['probes'] + s['lint_runs'], distinct_nontrivial=s['boundary_entries'],
+    # ---- "all future regenerations": the real generator on synthetic registry data (built with an overlaid transport)
+    gen = vlib.build_gtld_updater(ctx)
+    dg = vlib.drive(ctx, exe, 'gtldgen', env={'VERIF_GTLDUPD': gen})
+    grej, glines = vlib.tlc_trace(ctx, 'Trace_TLD', os.path.join(dg, 'gtldgen.ndjson'), shards=1)
+    for (ln, payload) in grej:
+        e = json.loads(glines[ln - 1])
+        for (why, k) in payload[0]:
+            if why.startswith('fid-'):
+                ctx.drift.append('generator scenario %s: %s (%s)' % (e['scenario'], why, e['stderr']))
+                continue
+            ent = ('entry %r gtld=%r delegation=%s removal=%s' % (e['keys'][k - 1], e['gtld'][k - 1], e['deleg'][k - 1], e['removal'][k - 1])) if k > 0 else ''
+            vlib.report(ctx, 'generator:%s:%s' % (e['class'], why), 'zlint-gtld-update on registry data "%s": %s %s (exit=%s)' % (e['scenario'], why, ent, e['exit']), dict(scenario=e['scenario']))
+    cov = dict(evaluations=s['probes'] + s['lint_runs'] + len(glines), distinct_nontrivial=s['boundary_entries'],
                rule='evaluation = one (name, instant) probe of HasValidTLD / IsInTLDMap or one run of the TLD lint on a forged certificate; every table entry is probed at its delegation '
                     'and removal instants -1 s / 0 / +1 s, far past, far future, in 7 name shapes; non-trivial = table entries probed at a boundary (both outcomes seen)',
-               samples=[s['sample'], json.loads(lines[5])], entries=s['entries'], exhaustive=True,
+               samples=[s['sample'], json.loads(lines[5])], entries=s['entries'], generator_scenarios=len(glines), exhaustive=True,
                trusted_base=['go/parser (table extraction)', 'strings.ToLower / ToUpper', 'Go time'])
     return vlib.finish(ctx, 'model_checking', cov, ASSUME)
 
